@@ -8,8 +8,9 @@
        handler = (((metric (no ep er normal)) ...) std)
        groups  = opt ((name kind labels single) ...)     kind 0 LabelGroup, 1 LabelMergeGroup
    ops: 1901 config -> (yaml  decode-of-it  wf  tables_ok)        1902 yaml -> decode
-        1903 (kind component) -> (yaml  decode-of-it)            1904 (kind yaml) -> decode of the component *)
-From Pan Require Import Base.Common Base.Sx Model.MetricTable Model.Config.
+        1903 (kind component) -> (yaml  decode-of-it)            1904 (kind yaml) -> decode of the component
+        1905 ((name kind labels single) ...)  the user's dictionary, keys as given -> (dictionary  labels  rebuilt-dictionary) *)
+From Pan Require Import Base.Common Base.Sx Model.MetricTable Model.Config Model.GroupCtor.
 Open Scope Z_scope.
 
 Definition T0 := model_tables.
@@ -152,9 +153,14 @@ Definition run_decode_component (x : sx) : sx :=
   else if k =? 11 then ofRes19 ofZerotp (dec_zerotp T0 y)
   else SL [SZ (-1)].
 
+Definition run_group_ctor (x : sx) : sx :=
+  let entries := map (fun e => (sStr (sNth 0 e), sLgroup (SL (tl (sL e))))) (sL x) in
+  SL [ofGroups (GList (ctor_dict entries)); ofZs (ctor_labels entries); ofGroups (GList (reconstructed entries))].
+
 Definition run_c19 (sub : Z) (x : sx) : sx :=
   if sub =? 1 then run_config x
   else if sub =? 2 then ofRes19 ofConfig (decode T0 (sYaml x))
   else if sub =? 3 then run_component x
   else if sub =? 4 then run_decode_component x
+  else if sub =? 5 then run_group_ctor x
   else SL [SZ (-1)].
